@@ -474,7 +474,7 @@ theorem applyHeader_kind (dn : Bool) (st : HState) (key value : Bytes) (hne : ke
         else st
       | .trailer =>
         let (names, bad) := setTrailers dn value
-        { err := bad, head := { hd with trailer := names } }
+        { err := bad, head := { hd with trailer := hd.trailer ++ names } }
       | .other => { st with head := { hd with h := hd.h ++ [(key, value)] } } := by
   cases key with
   | nil => exact absurd rfl hne
